@@ -45,9 +45,9 @@ def run(ctx):
     rng = ctx.rng
     dbs = bind_all()
     sch = Q.schema_json()
-    n_frag, n_ext = ctx.scale(600, 6000), ctx.scale(200, 2000)
+    n_frag, n_ext = ctx.scale(600, 4500), ctx.scale(200, 1500)
     gen = Q.Gen(rng, 'frag'); ext = Q.ExtGen(rng)
-    exprs = [('witness', WITNESS)] + [('frag', gen.expr(rng.choice([1, 2, 2, 3, 3, 4]))) for _ in range(n_frag)] + [('ext', ext.expr(rng.choice([1, 2, 3]))) for _ in range(n_ext)]
+    exprs = [('witness', WITNESS)] + [('frag', x) for x in Q.flag_probes() if Q.has_attr(x) and not Q.closed_compound(x)] + [('frag', gen.expr(rng.choice([1, 2, 2, 3, 3, 4]))) for _ in range(n_frag)] + [('ext', ext.expr(rng.choice([1, 2, 3]))) for _ in range(n_ext)]
     rows = [Q.random_row(rng) for _ in range(ctx.scale(10, 24))]
     rows.append({'a': 0, 'c': 0, 'n': None, 'm': None, 'b': True, 'nb': None, 's': 'a', 't': '', 'ns': None})
     rows.append({'a': 1, 'c': -1, 'n': 0, 'm': 0, 'b': False, 'nb': False, 's': 'ab', 't': 'a', 'ns': ''})
@@ -529,6 +529,22 @@ def run_tuples(ctx):
                 if conds != want:
                     ctx.divergence('the %s translator does not emit the row-value comparison for a tuple comparison' % prov, {'query': src}, model=want, impl=conds)
                 else: ctx.count('tuples:row-value-shape-ok:' + prov)
+                # the row-value comparison the dialect receives, evaluated as the lexicographic order on every row
+                if len(conds) == 1 and len(conds[0]) == 3 and conds[0][0] in NAME.values() and conds[0][1][:1] == ['ROW'] and conds[0][2][:1] == ['ROW']:
+                    def opval(node, r):
+                        if node[0] == 'COLUMN': return r['abcd'.index(node[2])]
+                        if node[0] == 'VALUE': return node[1]
+                        if node[0] == 'PARAM': return params[node[1]]
+                        raise ValueError(node)
+                    pyop = OPS[{v_: k_ for k_, v_ in NAME.items()}[conds[0][0]]]
+                    try:
+                        sel = [i + 1 for i, r in enumerate(rows) if pyop(tuple(opval(x, r) for x in conds[0][1][1:]), tuple(opval(x, r) for x in conds[0][2][1:]))]
+                    except ValueError: sel = None
+                    if sel is not None and sel != exp:
+                        bad = sorted(set(sel) ^ set(exp))
+                        ctx.violation('the row-value comparison the %s translator emits selects other rows than SQLite / Python (lexicographic semantics)' % prov,
+                                      {'query': 'select(e.id for e in T if %s)' % src, 'params': params, 'row (a, b, c, d)': rows[bad[0] - 1], 'ast': conds[0]},
+                                      observed={prov + ' selects row': bad[0] in sel}, expected={'python selects row': bad[0] in exp}, key='tuple-row-value:%s:%d:%s' % (prov, n, op))
     for pdb, PT in dbs.values():
         try: pdb.disconnect()
         except Exception: pass
